@@ -37,6 +37,31 @@ PRODUCERS = {
 }
 
 
+def structural_producer(F, fid):
+    """a function outside the audited list may store an Int payload when every stored value is the range-checked sum
+    (origin: MintBuilder::checked_mint_sum, whose accepted range is re-derived below) or a plain copy of an Int it was given
+    (origins: parameters / fields only, no arithmetic) - e.g. a helper extracted from update_mint_value"""
+    import fieldflow as ff
+    import p_c04
+    ffs = ff.FnFields(F, fid)
+    org = ff.Origins(F, fid)
+    sts = [s_ for s_ in ffs.stores if s_[0] == INT and s_[1] == "0"]
+    aggs = ffs.aggregates_of(INT)
+    if not sts and not aggs:
+        return False
+    vals = [s_[4] for s_ in sts] + [a[5][0] for a in aggs if a[5]]
+    for v in vals:
+        o = p_c04._origins_any(org, v) if isinstance(v, list) and v and v[0] not in ("c", "m", "k") else org.of_operand(v)
+        calls = {x.split("@")[0][5:] for x in o if x.startswith("call:")}
+        if any(c.endswith("checked_mint_sum") for c in calls):
+            continue
+        plain = all(c.endswith(("Clone>::clone", "Deref>::deref", "DerefMut>::deref_mut", "Try>::branch", "::or_insert", "::entry", "AsRef>::as_ref")) or "collections::" in c for c in calls)
+        if plain and any(x.startswith("field:") and x.endswith("numeric::int::Int.0") for x in o):
+            continue  # copied out of an existing Int (an i128 that merely comes from a parameter is not enough)
+        return False
+    return True
+
+
 def H_short(p):
     return "::".join(p.split("::")[-2:])
 
@@ -116,7 +141,7 @@ def check(rep, F, tier, replay=None):
         if n:
             rep.inst("INT-range", n)
             key = F.key(fid)
-            if key not in PRODUCERS:
+            if key not in PRODUCERS and not structural_producer(F, fid):
                 rep.violation("INT-range", key, "%s creates or overwrites an Int payload (%d site(s)) without being an audited range-preserving producer: an Int outside -2^64..2^64-1 would be truncated silently when encoded" % (key, n), {"function": fid, "file": fn["file"]})
     # update_mint_value stores go through checked_mint_sum
     fid = find_fn(rep, F, "MintBuilder::update_mint_value")
